@@ -107,7 +107,7 @@ def run(tier, seed):
     base += [(n, s, []) for n, s, a in g_items]
     for fam, fn in (('expr', lambda s: genprog.gen_expr_program(s, wide=True)[1]), ('lit', lambda s: genprog.gen_literal_program(s)[1]),
                     ('macro', lambda s: genprog.gen_macro_program(s)[1]), ('case', lambda s: genprog.gen_case_program(s, False)[1])):
-        for i in range(2 if quick else 12):
+        for i in range((10 if fam == 'expr' else 2) if quick else 30):
             s = rng.randrange(1 << 30)
             base.append(('%s:%d' % (fam, s), fn(s), []))
     # yield / end programs only make sense with their flag: those rows are forced
